@@ -10,13 +10,12 @@ from props import C02
 
 def run(ck):
     d = vf.scratch_dir('C03')
-    n = 120 if ck.tier == 'quick' else 2000
+    n = 200 if ck.tier == 'quick' else 2000
     ck.rule(C02.RULE + ' | C03 bias: 60% invocations, each followed by a second invocation on the untouched tree')
-    batch = 40 if ck.tier == 'quick' else 250
-    for b in range(0, n, batch):
-        hists = dict(('h%d' % i, incr.gen_history(ck.rng, 'untouched')) for i in range(b, min(n, b + batch)))
-        incr.check_histories(ck, d, hists, 'b%d' % b, ('C03',))
-        vf.sh(['rm', '-rf', d + '/trees_b%d' % b])
+    batch = 50 if ck.tier == 'quick' else 250
+    batches = [('b%d' % b, dict(('h%d' % i, incr.gen_history(ck.rng, 'untouched')) for i in range(b, min(n, b + batch))))
+               for b in range(0, n, batch)]
+    incr.check_histories_parallel(ck, d, batches, ('C03',))
     incr.flush(ck)
 
 
